@@ -58,8 +58,8 @@ class QR(Lin):
             A = A[P, :]
         if np.abs(np.tril(R, -1)).max() != 0: bad.append('R not exactly upper triangular')
         sc = np.abs(A).max() if np.abs(A).max() > 1e-200 else 1.0      # the property's bound is relative to ||A||
-        if np.abs(Q @ R - A).max() > s.tol() * 100 * sc: bad.append(f'|Q*R-A| = {np.abs(Q @ R - A).max():.3g}')
-        if s.orth and np.abs(Q.T @ Q - np.eye(n)).max() > 1e-3: bad.append(f'|QtQ-I| = {np.abs(Q.T @ Q - np.eye(n)).max():.3g}')
+        if np.abs(Q @ R - A).max() > s.bound(n) * sc: bad.append(f'|Q*R-A| = {np.abs(Q @ R - A).max():.3g}')
+        if s.orth and np.abs(Q.T @ Q - np.eye(n)).max() > s.bound(n, np.linalg.cond(m['a'].reshape(n, n))): bad.append(f'|QtQ-I| = {np.abs(Q.T @ Q - np.eye(n)).max():.3g}')
         return '; '.join(bad) or None
 
 
